@@ -5,6 +5,7 @@ import (
 	"fmt"
 	"os"
 	"path/filepath"
+	"regexp"
 	"sort"
 	"strings"
 
@@ -215,6 +216,10 @@ func (e *Env) simExec(name string, args []string) ([]byte, error, bool) {
 			if err := e.vcmd(cwd, f[1:]); err != nil {
 				return []byte(err.Error()), err, true
 			}
+		case "vjoin":
+			if err := e.vjoin(cwd, part); err != nil {
+				return []byte(err.Error()), err, true
+			}
 		case "true":
 		case "false":
 			return nil, vs.RealExitError(1), true
@@ -277,6 +282,38 @@ func (e *Env) vcmd(cwd string, f []string) error {
 		return err
 	}
 	vs.Event("E:" + key)
+	return nil
+}
+
+var vjoinRe = regexp.MustCompile(`^vjoin (\S+) \[(.*)\]$`)
+
+// vjoin OUT [JOINED]: the consumer of a joined in-port. It notes the raw argument string it
+// was given, checks that every member resolves from its working directory (when the
+// placeholder carries no relocating modifier) and writes the members' contents to OUT.
+func (e *Env) vjoin(cwd string, part string) error {
+	m := vjoinRe.FindStringSubmatch(part)
+	if m == nil {
+		return fmt.Errorf("vjoin: cannot parse %q", part)
+	}
+	ps := e.Spec.proc("j")
+	vs.Event("S:j[]")
+	vs.Note("joined:" + m[2])
+	content := ""
+	if ps != nil && ps.JoinMod == "" && m[2] != "" {
+		for _, p := range strings.Split(m[2], ps.JoinSep) {
+			d, err := vs.FSReadFile(filepath.Join(cwd, p))
+			if err != nil {
+				return fmt.Errorf("vjoin: member %q does not resolve from %s: %v", p, cwd, err)
+			}
+			content += string(d) + "\n"
+		}
+	} else if ps != nil {
+		content = refContent(e.Spec, "joined.txt")
+	}
+	if err := vs.FSWriteFile(filepath.Join(cwd, m[1]), []byte(content), 0644); err != nil {
+		return err
+	}
+	vs.Event("E:j[]")
 	return nil
 }
 
